@@ -36,7 +36,7 @@ MANDATORY = ["new:float-for-int", "new:repeated", "new:empty", "new:missing", "n
 
 
 def budget(tier):
-    return {"quick": dict(examples=1200, shards=1), "thorough": dict(examples=15000, shards=16)}[tier]
+    return {"quick": dict(examples=3000, shards=1), "thorough": dict(examples=15000, shards=16)}[tier]
 
 
 @st.composite
